@@ -18,7 +18,7 @@ ASSUMPTIONS = ["fault -> code table follows hed/errors/schema_error_messages.py 
                "SCHEMA_ATTRIBUTE_INVALID, SCHEMA_ATTRIBUTE_VALUE_INVALID, SCHEMA_DEPRECATION_ERROR)",
                "hedId faults are seeded on a copy of 8.3.0 whose version is bumped to 8.4.0 so that 8.3.0 is the previous "
                "release found in the hermetic cache", "SCHEMA_PRERELEASE_VERSION_USED is ignored"]
-MIN_MONITOR_EVALS = {"released-schema-no-error": 9, "seeded-fault-has-code": 120, "warnings-off-only-errors": 120, "group-compliance-equals-members": 8, "legal-edit-not-reported": 15}
+MIN_MONITOR_EVALS = {"released-schema-no-error": 9, "seeded-fault-has-code": 120, "warnings-off-only-errors": 120, "group-compliance-equals-members": 8, "legal-edit-not-reported": 15, "tsv-duplicate-row-reported": 12}
 WATCHDOG_S = {"quick": 1500, "thorough": 7200}
 CODES = {"duplicate-node": "SCHEMA_DUPLICATE_NODE", "library-node-named-as-standard": "SCHEMA_LIBRARY_INVALID", "attribute-from-other-section": "SCHEMA_ATTRIBUTE_INVALID",
          "unknown-attribute": "SCHEMA_ATTRIBUTE_INVALID", "missing-unit-class": "SCHEMA_ATTRIBUTE_VALUE_INVALID",
@@ -68,8 +68,41 @@ def check_group(versions, rec):
             return
 
 
+def check_tsv_duplicate(case, rec):
+    """The spreadsheet form of a schema with one tag row repeated (exactly, or with another description): the node
+    name is there twice, which is reported as for the other formats."""
+    import pandas as pd
+    from hed.schema import from_dataframes
+    from hed.errors.exceptions import HedFileError
+    env.clear_hed_caches()
+    schema = env.schema(case["version"])
+    rec.mon("tsv-duplicate-row-reported")
+    try:
+        dfs = dict(schema.get_as_dataframes())
+        t = dfs["Tag"]
+        k = (case["pos"] * 37 + 11) % len(t)
+        while str(t.iloc[k]["rdfs:label"]).endswith("#"):      # (a placeholder row is not a node with a name)
+            k = (k + 1) % len(t)
+        row = t.iloc[[k]].copy()
+        if case["pos"] % 2 == 1:
+            row["dc:description"] = "another description"
+        at = k + 1 if case["pos"] % 3 else len(t)
+        dfs["Tag"] = pd.concat([t.iloc[:at], row, t.iloc[at:]], ignore_index=True)
+        codes = {i["code"] for i in from_dataframes(dfs).check_compliance(check_for_warnings=True)}
+    except HedFileError:
+        rec.count("duplicate-rejected-at-load", case["version"] + " (tsv)")
+        return
+    except Exception as ex:  # noqa
+        rec.violation(f"loading / checking the spreadsheet form with a repeated row raised {type(ex).__name__}", case)
+        return
+    if "SCHEMA_DUPLICATE_NODE" not in codes:
+        rec.violation("a tag row repeated in the spreadsheet form is not reported as SCHEMA_DUPLICATE_NODE", case)
+
+
 def shards(tier, seed):
     out = [dict(kind="released", version=v) for v in env.STANDARD + env.PARTNERED]
+    for v in SEED_SCHEMAS[tier]:
+        out.append(dict(kind="tsv-duplicate", version=v, n=6 if tier == "quick" else 60))
     for versions in GROUPS:
         out.append(dict(kind="group", versions=versions))
     for v in SEED_SCHEMAS[tier]:
@@ -428,6 +461,12 @@ def run_shard(shard, rec):
     if shard["kind"] == "group":
         check_group(shard["versions"], rec)
         return
+    if shard["kind"] == "tsv-duplicate":
+        for pos in range(shard["n"]):
+            case = dict(kind="tsv-duplicate", version=shard["version"], pos=pos)
+            rec.case(("tsv-duplicate", shard["version"], pos))
+            check_tsv_duplicate(case, rec)
+        return
     for pos in range(shard["start"], shard["start"] + shard["n"]):
         case = dict(kind="seeded", version=shard["version"], fault=shard["fault"], pos=pos, exhaustive=shard["exhaustive"])
         if check_seeded(case, rec):
@@ -448,5 +487,7 @@ def replay(case, rec):
         check_seeded(case, rec)
     elif case.get("kind") == "group":
         check_group(case["versions"], rec)
+    elif case.get("kind") == "tsv-duplicate":
+        check_tsv_duplicate(case, rec)
     else:
         run_shard(dict(kind="released", version=case["version"]), rec)
